@@ -62,6 +62,8 @@ class HarnessError(Exception):
 def build_world(spec: dict) -> str:
     root = snapshot.new_scratch("w")
     for d in ("cwd", "tmp", "alt-tmp", "in", "cap"):
+        if spec.get("missing_tmp") and d in ("tmp", "alt-tmp"):
+            continue  # knob: $TMPDIR and the system temp dirs do not exist; tempfile falls back to the cwd
         os.makedirs(os.path.join(root, d))
     for rel, text in sorted(spec.get("files", {}).items()):
         p = os.path.join(root, rel)
@@ -83,6 +85,8 @@ def listing(root: str) -> dict:
     out = {}
     for top in ("cwd", "tmp", "alt-tmp", "in"):
         base = os.path.join(root, top)
+        if not os.path.isdir(base):
+            continue
         for dirpath, dirnames, filenames in os.walk(base):
             dirnames.sort()
             for d in dirnames:
